@@ -186,6 +186,11 @@ func newBEnv(cfgLine []string) (*bEnv, error) {
 		if kind[1] == "walstart" {
 			pm = partitioner.PART_METHOD_NONE
 		}
+		if strings.HasPrefix(kind[1], "pm-") {
+			// the configured partition method by its documented name: the factory's own decision (record keyed
+			// by LSN or by the batch's partition key) is then part of what is compared (C06)
+			pm = partitioner.GetPartitionMethod(kind[1][3:])
+		}
 		f = kinesis.NewBatchFactory(map[string]interface{}{config.VAR_NAME_PARTITION_METHOD: pm})
 	case "kafka":
 		n, _ := strconv.Atoi(kind[1])
@@ -357,6 +362,16 @@ func batcherRun(c Case) ([]string, []string) {
 			e.stop()
 		}
 	}()
+	nmsg := 0               // message ops so far (the timed layer's clock is this index)
+	brackets := [][3]int64{} // per handled message op: clock before, clock after, op index
+	opOf := func(t int64) int64 {
+		for _, b := range brackets {
+			if b[0] <= t && t <= b[1] {
+				return b[2]
+			}
+		}
+		return 0
+	}
 	for _, l := range c.Lines {
 		w := strings.Fields(l)
 		if len(w) < 2 || w[0] != "batcher" {
@@ -370,6 +385,7 @@ func batcherRun(c Case) ([]string, []string) {
 				e.stop()
 			}
 			var err error
+			nmsg, brackets = 0, brackets[:0]
 			e, err = newBEnv(w)
 			if err != nil {
 				lines = append(lines, l)
@@ -410,10 +426,15 @@ func batcherRun(c Case) ([]string, []string) {
 				}
 			}
 			lines = append(lines, strings.Join(w, " "))
+			nmsg++
 			if e.dead {
 				outs = append(outs, "-")
 				continue
 			}
+			// clock bracket of this loop iteration: every time.Now() the batcher or a batch reads while it
+			// handles the message lies between these two readings (timed layer, Model/BatcherTimed.lean)
+			brLo := time.Now().UnixNano()
+			brackets = append(brackets, [3]int64{brLo, 0, int64(nmsg)})
 			if e.parkedNow {
 				e.pc.resume <- struct{}{}
 				e.parkedNow = false
@@ -426,6 +447,7 @@ func batcherRun(c Case) ([]string, []string) {
 				}
 			}()
 			evs, why := e.collect(sent, true)
+			brackets[len(brackets)-1][1] = time.Now().UnixNano()
 			if why == "timeout" {
 				outs = append(outs, renderEvs(evs, false)+" hang")
 				return lines, outs
@@ -466,12 +488,15 @@ func batcherRun(c Case) ([]string, []string) {
 				time.Sleep(5 * time.Millisecond)
 			}
 			times := []string{}
+			idx := []string{}
 			omToKey := map[*ordered_map.OrderedMap]string{}
 			for k, b := range open {
 				times = append(times, fmt.Sprintf("%s:%d:%d", hexs(k), b.CreateTime(), b.ModifyTime()))
+				idx = append(idx, fmt.Sprintf("%s:%d:%d", hexs(k), opOf(b.CreateTime()), opOf(b.ModifyTime())))
 				omToKey[b.GetTransactions()] = k
 			}
 			sortStrings(times)
+			sortStrings(idx)
 			done := make(chan bool, 1)
 			t0 := time.Now()
 			go func() { done <- e.b.VerifHandleTicker() }()
@@ -493,8 +518,8 @@ func batcherRun(c Case) ([]string, []string) {
 					}
 				}
 			}
-			lines = append(lines, fmt.Sprintf("batcher tick %d %s %s", now, joinList(times, ","), joinList(order, ",")))
-			outs = append(outs, "valid=true "+renderEvs(evs, why == "exited"))
+			lines = append(lines, fmt.Sprintf("batcher tick %d %s %s %s", now, joinList(times, ","), joinList(order, ","), joinList(idx, ",")))
+			outs = append(outs, "valid=true times=ok "+renderEvs(evs, why == "exited"))
 			if why == "timeout" {
 				return lines, outs
 			}
@@ -543,7 +568,7 @@ func batcherGen(r *Rng, tier string) Case {
 		kind = fmt.Sprintf("generic:%d", Pick(r, []int{1, 2, 3, 5, 8, 500}))
 	case k < 78:
 		kinesis = true
-		kind = "kinesis:" + Pick(r, []string{"walstart", "batch"})
+		kind = "kinesis:" + Pick(r, []string{"walstart", "batch", "pm-none", "pm-tablename", "pm-transaction", "pm-transaction-bucket"})
 	default:
 		kind = fmt.Sprintf("kafka:%d:%d:%s", Pick(r, []int{1, 2, 3, 10}), Pick(r, []int{50, 70, 100, 1000000}),
 			Pick(r, []string{"random", "batch", "transaction", "transaction-constant", "tablename"}))
@@ -570,6 +595,8 @@ func batcherGen(r *Rng, tier string) Case {
 	pmode := r.Intn(4) // none, table, txn, bucket
 	if strings.HasPrefix(kind, "kinesis:walstart") {
 		pmode = 0
+	} else if strings.HasPrefix(kind, "kinesis:pm-") {
+		pmode = map[string]int{"none": 0, "tablename": 1, "transaction": 2, "transaction-bucket": 3}[kind[len("kinesis:pm-"):]]
 	} else if kinesis && pmode == 0 {
 		pmode = 1
 	}
